@@ -305,3 +305,49 @@ def strip_prompts(stdout):
             seg = seg[2:]
         out.append(seg)
     return ''.join(out)
+
+
+# ----------------------------------------------------------------------------- compound elements in loops
+def compound_loop_program(rng):
+    """arrays of records, records with array fields and arrays of pointers, every access made through the SAME
+    syntax node with a varying non-literal index (loops, repeated calls): element identity must follow the index"""
+    lo = rng.randint(-2, 1); hi = lo + rng.randint(1, 3)
+    L = ['TYPE Pt', '  DECLARE x : INTEGER', '  DECLARE tag : STRING', '  DECLARE inner : ARRAY[1:2] OF INTEGER', 'ENDTYPE',
+         'TYPE IP = ^INTEGER', 'TYPE PP = ^Pt',
+         'DECLARE pts : ARRAY[%d:%d] OF Pt' % (lo, hi), 'DECLARE ps : ARRAY[%d:%d] OF IP' % (lo, hi), 'DECLARE tg : ARRAY[%d:%d] OF INTEGER' % (lo, hi),
+         'DECLARE pp : ARRAY[%d:%d] OF PP' % (lo, hi), 'DECLARE i : INTEGER', 'DECLARE j : INTEGER', 'DECLARE one : Pt']
+    if rng.random() < 0.5:
+        L += ['PROCEDURE show(k : INTEGER)', '  OUTPUT "show ", k, " ", pts[k].x, " ", pts[k].inner[2]', 'ENDPROCEDURE',
+              'FUNCTION getx(k : INTEGER) RETURNS INTEGER', '  RETURN pts[k].x', 'ENDFUNCTION']
+        has_proc = True
+    else:
+        has_proc = False
+    fill = ['FOR i <- %d TO %d' % (lo, hi), '  pts[i].x <- i * 10', '  pts[i].tag <- "p" & NUM_TO_STR(i)',
+            '  FOR j <- 1 TO 2', '    pts[i].inner[j] <- i * 100 + j', '  NEXT j', '  tg[i] <- i + 500', '  ps[i] <- ^tg[i]', '  pp[i] <- ^pts[i]', 'NEXT i']
+    if rng.random() < 0.3:
+        fill = ['i <- %d' % lo, 'WHILE i <= %d' % hi, '  pts[i].x <- i * 10', '  pts[i].tag <- "p" & NUM_TO_STR(i)', '  pts[i].inner[1] <- i * 100 + 1', '  pts[i].inner[2] <- i * 100 + 2',
+                '  tg[i] <- i + 500', '  ps[i] <- ^tg[i]', '  pp[i] <- ^pts[i]', '  i <- i + 1', 'ENDWHILE']
+    L += fill
+    def dump(tag):
+        a, b, st = (lo, hi, '') if rng.random() < 0.5 else (hi, lo, ' STEP -1')
+        fields = rng.sample(['pts[i].x', 'pts[i].tag', 'pts[i].inner[1]', 'pts[i].inner[2]', 'ps[i]^', 'tg[i]', 'pp[i]^.x', 'pp[i]^.inner[1]'], rng.randint(2, 6))
+        out = ['FOR i <- %d TO %d%s' % (a, b, st), '  OUTPUT "%s ", i, " ", %s' % (tag, ', " ", '.join(fields))]
+        if has_proc and rng.random() < 0.6:
+            out += ['  CALL show(i)', '  OUTPUT getx(i)']
+        return out + ['NEXT i']
+    L += dump('d1')
+    for _ in range(rng.randint(1, 4)):
+        a = rng.randint(lo, hi); b = rng.randint(lo, hi)
+        k = rng.randint(0, 7)
+        if k == 0: L += ['pts[%d] <- pts[%d]' % (a, b), 'pts[%d].x <- 777' % b, 'pts[%d].inner[1] <- 778' % b]
+        elif k == 1: L += ['one <- pts[%d]' % a, 'one.x <- 901', 'one.inner[2] <- 902', 'pts[%d] <- one' % b, 'one.tag <- "changed"']
+        elif k == 2: L += ['i <- %d' % a, 'ps[i]^ <- ps[i]^ + 1', 'i <- %d' % b, 'ps[i]^ <- ps[i]^ + 1']
+        elif k == 3: L += ['FOR i <- %d TO %d' % (lo, hi), '  pp[i]^.x <- pp[i]^.x + 1', 'NEXT i']
+        elif k == 4: L += ['FOR i <- %d TO %d' % (lo, hi), '  pts[i].inner[1] <- pts[i].inner[2]', '  pts[i].inner[2] <- i', 'NEXT i']
+        elif k == 5: L += ['ps[%d] <- ps[%d]' % (a, b), 'tg[%d] <- 4242' % b]
+        elif k == 6: L += ['FOR i <- %d TO %d' % (lo, hi), '  IF i = %d THEN' % a, '    pts[i].tag <- "hit"', '  ENDIF', 'NEXT i']
+        else: L += ['FOR i <- %d TO %d' % (hi, lo), '  pts[i].x <- 0', 'NEXT i', 'i <- %d' % a, 'pts[i].x <- pts[i].x + 5', 'i <- %d' % b, 'pts[i].x <- pts[i].x + 7']
+        L += dump('d%d' % (k + 2))
+    # the same node, then an index outside the bounds
+    L += ['FOR i <- %d TO %d' % (lo, hi + 1), '  OUTPUT "last ", pts[i].x', 'NEXT i', 'OUTPUT "not reached"']
+    return join(L)
